@@ -35,9 +35,8 @@ func scOf(kind string) int {
 
 // known: recorded signatures — only to choose which violation of a case is reported first (an unrecorded one wins).
 var known = map[string]bool{
-	"C11:authorizer-lock-refused-after-first-lock": true,
-	"C11:authorizer-unlock-refused-after-lock":     true,
-	"C11:authorizer-stake-erased-by-reward":        true,
+	// the three authorizer signatures (authorizer-lock-refused-after-first-lock, authorizer-unlock-refused-after-lock,
+	// authorizer-stake-erased-by-reward) were fixed by repo commit fc9e9de: not listed, a regression is reported first
 }
 
 func oracle(ops, outs []string) *corr.Violation {
@@ -310,7 +309,7 @@ func fixed() [][]string {
 		{h, "reg blobber 30 50 10 " + r, "dump", "lock blobber 30 41 50000000000 1700000000", "dump", "lock blobber 30 42 70000000000 1700000000", "dump",
 			"reward blobber 30 1000000", "dump", "collect blobber 30 42", "dump", "unlock blobber 30 43 2000000000", "dump", "unlock blobber 30 42 2000000000", "dump",
 			"collect blobber 30 50", "dump", "unlock blobber 30 41 2000000000", "dump"},
-		// authorizer: the first lock makes the record unreadable for zcnsc
+		// authorizer (before fc9e9de the first lock made the record unreadable for zcnsc: second lock and unlock refused)
 		{h, "reg authorizer 40 60 5 " + r, "dump", "lock authorizer 40 41 50000000000 1700000000", "dump", "lock authorizer 40 42 50000000000 1700000000", "dump",
 			"unlock authorizer 40 41 2000000000", "dump", "reward authorizer 40 1000", "dump", "collect authorizer 40 41", "dump"},
 		// miner and sharder, min lock period, the delegate wallet's service charge on unlock
